@@ -1,3 +1,4 @@
+import Ebu.Proofs.ConcOnce
 import Ebu.Spec.Flow
 import Ebu.Props.C03Facts
 import Ebu.Spec.Conc
@@ -51,5 +52,32 @@ theorem flow_claim_order : Ebu.Flow.dispatchOrder = true := by decide +kernel
 
 /-- OBLIGATION: a claimed once handler is retired by pointer identity after the loop -/
 theorem flow_retire_by_identity : Ebu.Flow.retireByIdentity = true := by decide +kernel
+
+/-! ### exactly once when eligible, and gone afterwards (M2 at quiescence, `Proofs/ConcOnce.lean`) -/
+
+/-- "… and is no longer counted as subscribed afterwards": once every publish has returned, no registration whose
+compare-and-swap succeeded is still in the registry – under every schedule, whoever claimed it, synchronous or Async -/
+theorem once_fired_is_retired (progs : List (List Ebu.Conc.Op)) (s : Ebu.Conc.Sys) (h : Ebu.Conc.Reachable progs s)
+    (hd : s.allDone) : ∀ r ∈ s.sh.regs, r.rid ∉ s.sh.executed :=
+  Ebu.Conc.once_fired_is_retired progs s h hd
+
+/-- "… it is invoked exactly once": when no publish context was ever cancelled, every claimed Once registration has been
+entered exactly once by the time everything has finished (a claim is never lost between the compare-and-swap and the call) -/
+theorem once_claimed_was_entered (progs : List (List Ebu.Conc.Op)) (s : Ebu.Conc.Sys) (h : Ebu.Conc.Reachable progs s)
+    (hd : s.allDone) (hc : s.sh.cancelled = []) : ∀ rid ∈ s.sh.executed, s.sh.enteredOnce.count rid = 1 :=
+  Ebu.Conc.once_claimed_was_entered progs s h hd hc
+
+/-- only Once registrations are ever claimed -/
+theorem executed_are_once (progs : List (List Ebu.Conc.Op)) (s : Ebu.Conc.Sys) (h : Ebu.Conc.Reachable progs s) :
+    ∀ rid ∈ s.sh.executed, ∀ r ∈ s.sh.regs, r.rid = rid → r.once = true :=
+  Ebu.Conc.executed_are_once progs s h
+
+/-- the hypotheses are satisfiable: two publishers racing for a synchronous and an Async Once registration reach a
+quiescent state in which both were claimed, both entered exactly once, and the registry is empty -/
+theorem once_quiescence_reachable :
+    Ebu.Conc.Reachable Ebu.Conc.OnceExample.oxProgs Ebu.Conc.OnceExample.oxState ∧ Ebu.Conc.OnceExample.oxState.allDone ∧
+    Ebu.Conc.OnceExample.oxState.sh.cancelled = [] ∧ Ebu.Conc.OnceExample.oxState.sh.executed = [1, 0] ∧
+    Ebu.Conc.OnceExample.oxState.sh.enteredOnce = [1, 0] ∧ Ebu.Conc.OnceExample.oxState.sh.regs = [] :=
+  Ebu.Conc.OnceExample.once_hypotheses_satisfiable
 
 end Ebu.Props.C04
